@@ -14,6 +14,7 @@ from vf.trees import Tree
 
 
 def make_error(kind: str) -> BaseException:
+    kind = kind.split("-")[0]
     if kind == "EPIPE":
         return BrokenPipeError(errno.EPIPE, os.strerror(errno.EPIPE))
     if kind == "ECONNRESET":
@@ -21,7 +22,8 @@ def make_error(kind: str) -> BaseException:
     return socket.timeout("timed out")        # single argument, errno None
 
 
-ERROR_CLASS = {"EPIPE": "BrokenPipeError", "ECONNRESET": "ConnectionResetError", "timeout": type(socket.timeout()).__name__}
+ERROR_CLASS = {"EPIPE": "BrokenPipeError", "ECONNRESET": "ConnectionResetError", "timeout": type(socket.timeout()).__name__,
+               "timeout-once": type(socket.timeout()).__name__}
 
 
 class Faulty:
@@ -31,9 +33,10 @@ class Faulty:
     error_kind = "EPIPE"
     writes = 0
     failures = 0
+    transient = False      # a send timeout can hit one write only: that call fails, later ones would succeed
 
     def sendall(self, data, *a):  # noqa
-        if self.fail_after is not None and self.writes >= self.fail_after:
+        if self.fail_after is not None and self.writes >= self.fail_after and not (self.transient and self.failures):
             self.failures += 1
             raise make_error(self.error_kind)
         self.writes += 1
@@ -68,6 +71,10 @@ def build_site(sc: Scratch):
         if i % 3 == 0:
             t.file("menu/entry%02d.txt.abstract" % i, "abstract of %d\nsecond line" % i)
     t.file("menu/.abstract", "menu header")
+    # a menu whose last write is an entry's abstract (every entry has one)
+    for i in range(5):
+        t.file("menu2/e%d.txt" % i, "e\n")
+        t.file("menu2/e%d.txt.abstract" % i, "abstract of %d" % i)
     t.file("mail.mbox", trees.make_mbox(["One", "Two", "Three"], sc.path))
     inner = Tree().file("member.txt", "zip member\n" * 50).file("sub/a.txt", "a").file("sub/b.txt", "b")
     t.file("arch.zip", inner.to_zip())
@@ -84,6 +91,7 @@ KINDS = [
     ("document", b"/small.txt", ["gopher", "gophers", "gopherp+", "http", "https", "wap", "gemini", "spartan"]),
     ("large-document", b"/large.bin", ["gopher", "gopherps+", "https", "gemini", "spartan"]),
     ("menu", b"/menu", ["gopher", "gophers", "gopherp+", "gopherp$", "http", "https", "wap", "gemini", "spartan"]),
+    ("menu-ending-in-an-abstract", b"/menu2", ["gopher", "gophers", "gopherp+", "http", "wap", "gemini", "spartan"]),
     ("error-page", b"/does-not-exist", ["gopher", "gopherp+", "http", "wap", "gemini", "spartan", "https"]),
     ("gopherplus-item-info", b"/small.txt", ["gopherp!"]),
     ("gopherplus-dir-info", b"/menu", ["gopherp$", "gopherps$"]),
@@ -131,6 +139,7 @@ def one(chk: Check, site: driver.Site, root: str, label: str, view: str, sel: by
         fs = cls(sock)
         fs.fail_after = k
         fs.error_kind = kind or "EPIPE"
+        fs.transient = bool(kind) and kind.endswith("-once")
         holder["sock"] = fs
         return fs
 
@@ -209,8 +218,27 @@ def real_resets(chk: Check, sc: Scratch, nresets: int) -> None:
             other = sorted(set(c for c in classes if c not in ("BrokenPipeError", "ConnectionResetError")))
             sample = {"servertype": servertype, "resets": nresets, "logged_under_own_class": len(own), "other_classes": other,
                       "probe": probe[:40], "stderr_tail": sp.stderr_text()[-400:]}
+            held = []
+            for _ in range(40):
+                held = []
+                try:
+                    for fd in os.listdir("/proc/%d/fd" % sp.pid):
+                        try:
+                            tgt = os.readlink("/proc/%d/fd/%s" % (sp.pid, fd))
+                        except OSError:
+                            continue
+                        if tgt.startswith(root):
+                            held.append((fd, tgt))
+                except OSError:
+                    pass
+                if not held:
+                    break
+                time.sleep(0.25)
+            chk.count("real_server_descriptor_tables_inspected")
             if probe != b"small\n":
                 chk.witness("C20/server-down-after-client-resets:%s" % servertype, sample)
+            elif held:
+                chk.witness("C20/descriptor-left-open:real-server", dict(sample, still_open_10s_after_the_resets=held[:6]))
             elif other:
                 chk.witness("C20/real-reset-logged-as-%s" % other[0], sample)
             elif len(own) < nresets * 0.5:
@@ -236,7 +264,7 @@ def real_resets(chk: Check, sc: Scratch, nresets: int) -> None:
 def main() -> int:
     chk = Check("C20", "fault_enumeration")
     quick = chk.tier == "quick"
-    errors = ["EPIPE", "ECONNRESET", "timeout"]
+    errors = ["EPIPE", "ECONNRESET", "timeout", "timeout-once"]
     with Scratch("c20") as sc:
         root = build_site(sc)
         site = driver.Site(root, handlers=driver.HANDLERS_FULL)
@@ -306,7 +334,8 @@ def main() -> int:
              "record with the client address and the error's own class exists, no record of another class (beyond "
              "those the fault-free request logs), /proc/self/fd back to its state, no file finalised unclosed; plus the real "
              "server process (threading and forking) with clients that read r bytes of an 8 MiB document and reset the "
-             "connection: every failure logged under its own class with the client address, server still answering",
+             "connection: every failure logged under its own class with the client address, server still answering, no "
+             "descriptor of the serving process left open on a file of the site; 'timeout-once' fails one write only",
         assumptions=["responses written by a subprocess straight to the socket (plaintext script/decompressor output) "
                      "have no Python-level writes to fail; they are driven over TLS, where the server relays the output",
                      "descriptors are compared after gc.collect(); ones closed only by the collector are counted"],
